@@ -1237,8 +1237,8 @@ Theorem projection_spec_l : forall r x m,
 Proof.
   intros r x m Hwf Hnd Hin Hne.
   destruct (projection_ok r x m Hwf Hnd Hin) as [pj [pre [post [E [D1 [D2 [W S]]]]]]].
-  exists pj, pre, post. repeat split; auto.
-  intro Hn. rewrite (S b H). now apply opt_cost_spec.
+  exists pj, pre, post. split; [exact E|]. split; [exact D1|]. split; [exact D2|]. split; [exact W|].
+  intros b Hb. split; [now apply S|]. intro Hn. rewrite (S b Hb). now apply opt_cost_spec.
 Qed.
 
 Theorem generate_assignment_complete_l : forall dims, NoDup (names dims) ->
